@@ -488,6 +488,73 @@ Proof.
   intros Hd Hi. unfold key_from_phrase, key_from_seed, seed_from_phrase, le64. rewrite Hd, Hi. split; reflexivity.
 Qed.
 
+(** *** Histories: a key depends on the phrase last loaded into the buffer and on the index,
+    not on anything that happened before or on what other buffers were used for in between. *)
+Lemma hrun_app st ops1 ops2 :
+  hrun cks H Key newkey st (ops1 ++ ops2) =
+  let '(st1, k1) := hrun cks H Key newkey st ops1 in
+  let '(st2, k2) := hrun cks H Key newkey st1 ops2 in (st2, k1 ++ k2).
+Proof.
+  revert st. induction ops1 as [|op ops1 IH]; intros st; cbn [app hrun].
+  - destruct (hrun cks H Key newkey st ops2). reflexivity.
+  - destruct (hstep cks H Key newkey st op) as [st' ks]. rewrite IH.
+    destruct (hrun cks H Key newkey st' ops1) as [st1 k1].
+    destruct (hrun cks H Key newkey st1 ops2) as [st2 k2]. rewrite app_assoc. reflexivity.
+Qed.
+
+Lemma hrun_keeps st ops b :
+  forallb (fun op => negb (hwrites op b)) ops = true ->
+  fst (hrun cks H Key newkey st ops) b = st b.
+Proof.
+  revert st. induction ops as [|op ops IH]; intros st Hn; [reflexivity|].
+  cbn [forallb] in Hn. apply andb_true_iff in Hn. destruct Hn as [Hop Hn].
+  cbn [hrun]. destruct (hstep cks H Key newkey st op) as [st' ks] eqn:E.
+  specialize (IH st' Hn). destruct (hrun cks H Key newkey st' ops) as [st'' ks']. cbn [fst] in *.
+  rewrite IH. apply negb_true_iff in Hop.
+  destruct op as [b' ts|b' bytes|b' i]; cbn [hstep hwrites] in *.
+  - destruct (seed_from_phrase cks H ts); injection E as <- _; [|reflexivity].
+    unfold hupd. rewrite N.eqb_sym, Hop. reflexivity.
+  - injection E as <- _. unfold hupd. rewrite N.eqb_sym, Hop. reflexivity.
+  - injection E as <- _. reflexivity.
+Qed.
+
+Theorem history_key st pre b ts s mid i :
+  seed_from_phrase cks H ts = Some s ->
+  forallb (fun op => negb (hwrites op b)) mid = true ->
+  exists ks, snd (hrun cks H Key newkey st (pre ++ HLoad b ts :: mid ++ [HKey b i]))
+             = ks ++ [key_from_seed H Key newkey s i].
+Proof.
+  intros Hs Hm. rewrite hrun_app.
+  destruct (hrun cks H Key newkey st pre) as [st1 k1].
+  change (HLoad b ts :: mid ++ [HKey b i]) with ([HLoad b ts] ++ mid ++ [HKey b i]).
+  rewrite hrun_app. cbn [hrun hstep]. rewrite Hs. cbn [app].
+  rewrite hrun_app. pose proof (hrun_keeps (hupd st1 b s) mid b Hm) as Hk.
+  destruct (hrun cks H Key newkey (hupd st1 b s) mid) as [st2 k2]. cbn [fst] in Hk.
+  cbn [hrun hstep app snd]. rewrite Hk. unfold hupd. rewrite N.eqb_refl.
+  exists (k1 ++ k2). rewrite app_assoc. reflexivity.
+Qed.
+
+(** The same phrase and index always derive the same key: in any two histories, whatever the
+    initial buffer contents, whatever was done before, whichever buffer is used, and whatever
+    is done to other buffers in between. *)
+Theorem same_phrase_same_key st st' pre pre' b b' ts ts' s mid mid' i i' :
+  seed_from_phrase cks H ts = Some s -> decode cks ts = decode cks ts' -> i mod 2 ^ 64 = i' mod 2 ^ 64 ->
+  forallb (fun op => negb (hwrites op b)) mid = true ->
+  forallb (fun op => negb (hwrites op b')) mid' = true ->
+  exists ks ks' k,
+    snd (hrun cks H Key newkey st (pre ++ HLoad b ts :: mid ++ [HKey b i])) = ks ++ [k] /\
+    snd (hrun cks H Key newkey st' (pre' ++ HLoad b' ts' :: mid' ++ [HKey b' i'])) = ks' ++ [k] /\
+    key_from_phrase cks H Key newkey ts i = Some k.
+Proof.
+  intros Hs Hd Hi Hm Hm'.
+  assert (Hs' : seed_from_phrase cks H ts' = Some s) by (unfold seed_from_phrase in *; rewrite <- Hd; exact Hs).
+  destruct (history_key st pre b ts s mid i Hs Hm) as [ks E].
+  destruct (history_key st' pre' b' ts' s mid' i' Hs' Hm') as [ks' E'].
+  exists ks, ks', (key_from_seed H Key newkey s i). split; [exact E|]. split.
+  - rewrite E'. unfold key_from_seed, le64. rewrite Hi. reflexivity.
+  - unfold key_from_phrase. rewrite Hs. reflexivity.
+Qed.
+
 Theorem derivation_inputs_distinct seed seed' i j :
   length seed = length seed' -> i < 2^64 -> j < 2^64 ->
   seed ++ le64 i = seed' ++ le64 j -> seed = seed' /\ i = j.
@@ -581,6 +648,19 @@ Example ex_defects :
   defects toy_cks (map Word (firstn 11 ex_ws)) = [WrongCount] /\
   defects toy_cks (Unknown :: map Word ex_ws) = [WrongCount; UnknownWord] /\
   decode_res toy_cks (Unknown :: map Word ex_ws) = DErrCount.
+Proof. vm_compute. repeat split. Qed.
+
+(** hypotheses of [same_phrase_same_key]: one buffer loaded with phrase A, used, overwritten in
+    place with phrase B and used again with the same index (symbolic hash: H = identity):
+    the second key is B's, not A's *)
+Definition ex_tsA : list token := map Word ex_ws.
+Definition ex_tsB : list token := map Word (encode toy_cks 1 2).
+Example ex_history :
+  snd (hrun toy_cks (fun x => x) (list N) (fun x => x) (fun _ => [])
+         [HLoad 0 ex_tsA; HKey 0 7; HLoad 0 ex_tsB; HKey 1 7; HKey 0 7])
+  = [be64 ex_hi ++ be64 ex_lo ++ le64 7; le64 7; be64 1 ++ be64 2 ++ le64 7]
+  /\ seed_from_phrase toy_cks (fun x => x) ex_tsB = Some (be64 1 ++ be64 2)
+  /\ forallb (fun op => negb (hwrites op 0)) [HKey 1 7] = true.
 Proof. vm_compute. repeat split. Qed.
 
 (** hypotheses of [phrase_unique] and of the derivation theorems *)
